@@ -397,7 +397,7 @@ def run(ctx):
     # ---- leg A (parallel TLC runs) ------------------------------------------------------------
     nv_cfg = open(os.path.join(vlib.VERIF, "spec", "CacheStore_nonvac.cfg")).read()
     design = ["CacheStore_design_rw.cfg", "CacheStore_design_exp.cfg", "CacheStore_design_misc.cfg"]
-    with concurrent.futures.ThreadPoolExecutor(max_workers=3) as ex:
+    with concurrent.futures.ThreadPoolExecutor(max_workers=5) as ex:
         futs = []
         for cfg in design:
             txt = open(os.path.join(vlib.VERIF, "spec", cfg)).read()
@@ -408,6 +408,22 @@ def run(ctx):
             futs.append(("N", (dev, inv), ex.submit(
                 vlib.run_tlc, ctx, "CacheStore", "CacheStore_nonvac_%s.cfg" % dev, workers=1, expect_violation=True,
                 cfg_text=nv_cfg.replace("@DEV@", dev).replace("@INV@", inv))))
+        # leg B generators, the LRU extra and the driver build run alongside leg A
+        gen = open(os.path.join(vlib.VERIF, "spec", "CacheStore_gen.cfg")).read()
+        # two flavours: with time (expiry classes, tick; no Del: pkg/cache has none) and with Del (no expiry:
+        # concurrent_map / LRU have none)
+        gen_time = gen.replace('"get", "store", "del", "len"', '"get", "store", "len"')
+        gen_del = gen.replace('Exps = {"long", "short", "past"}', 'Exps = {"long"}')
+        if gen_time == gen or gen_del == gen:
+            raise vlib.Infra("CacheStore_gen.cfg no longer matches the substitutions of checks/C11.py")
+        f_time = ex.submit(vlib.tlc_behaviours, ctx, "CacheStore", "CacheStore_gen_time.cfg", simulate=2000 if T else 260,
+                           depth=70, cfg_text=gen_time)
+        f_del = ex.submit(vlib.tlc_behaviours, ctx, "CacheStore", "CacheStore_gen_del.cfg", simulate=1000 if T else 140,
+                          depth=70, cfg_text=gen_del)
+        f_lrud = ex.submit(vlib.tlc_mc, ctx, "LRU", "LRU_design.cfg", workers=2,
+                           label="extra: LRU.tla exhaustive (3 keys, max 1..2, 5 calls)")
+        f_lrug = ex.submit(vlib.tlc_behaviours, ctx, "LRU", "LRU_gen.cfg", simulate=600 if T else 100, depth=20)
+        f_build = ex.submit(vlib.go_build, ctx, "drv_cachestore", race=True)
         nonvac = []
         for kind, what, f in futs:
             res = f.result()
@@ -419,6 +435,10 @@ def run(ctx):
                 if res["violated"] != what[1]:
                     raise vlib.Infra("non-vacuity: deviation %s should violate %s, TLC says %r" % (what[0], what[1], res["violated"]))
                 nonvac.append("%s violated under Dev=%s" % (what[1], what[0]))
+        behs = f_time.result() + f_del.result()
+        f_lrud.result()
+        lbehs = f_lrug.result()
+        binary = f_build.result()
     ctx.cov["non_vacuity"] = nonvac
     if T:
         vlib.tlc_mc(ctx, "CacheStore", "CacheStore_design_all.cfg", coverage=True, workers=6, timeout=1200,
@@ -427,29 +447,14 @@ def run(ctx):
                     label="design, simulation: 3 threads x 3 calls, 3 keys, capacity 2, sizes {0,1,3}")
     log("leg A non-vacuity: %d deviations each violate their invariant" % len(nonvac))
 
-    # ---- leg B generator ----------------------------------------------------------------------
-    # two flavours: with time (expiry classes, tick; no Del: pkg/cache has none) and with Del (no expiry:
-    # concurrent_map / LRU have none)
-    gen = open(os.path.join(vlib.VERIF, "spec", "CacheStore_gen.cfg")).read()
-    gen_time = gen.replace('"get", "store", "del", "len"', '"get", "store", "len"')
-    gen_del = gen.replace('Exps = {"long", "short", "past"}', 'Exps = {"long"}')
-    assert gen_time != gen and gen_del != gen
-    with concurrent.futures.ThreadPoolExecutor(max_workers=2) as ex:
-        f1 = ex.submit(vlib.tlc_behaviours, ctx, "CacheStore", "CacheStore_gen_time.cfg", simulate=2000 if T else 260,
-                       depth=70, cfg_text=gen_time)
-        f2 = ex.submit(vlib.tlc_behaviours, ctx, "CacheStore", "CacheStore_gen_del.cfg", simulate=1000 if T else 140,
-                       depth=70, cfg_text=gen_del)
-        behs = f1.result() + f2.result()
+    # ---- leg B concretization ------------------------------------------------------------------
     sjobs = seq_jobs(rng, behs)
     # extra coverage: pkg/lru against spec/LRU.tla
-    vlib.tlc_mc(ctx, "LRU", "LRU_design.cfg", workers=2, label="extra: LRU.tla exhaustive (3 keys, max 1..2, 5 calls)")
-    lbehs = vlib.tlc_behaviours(ctx, "LRU", "LRU_gen.cfg", simulate=600 if T else 100, depth=20)
     ljobs = [{"id": i, "max": b["max"],
               "steps": [{"op": st["op"], "k": st["k"], "v": st["v"], "s": st["s"]} for st in b["steps"]]}
              for i, b in enumerate(lbehs)]
 
     # ---- driver -------------------------------------------------------------------------------
-    binary = vlib.go_build(ctx, "drv_cachestore", race=True)
     hjobs = hist_jobs(rng, 12000 if T else 400)
     cjobs = cap_jobs()
     t0 = time.time()
